@@ -17,6 +17,7 @@ QUERIES = [["init"], ["args", None, "0"]]
 
 def setup(ctx):
     ctx.build(PROPS)
+    ctx.shrinker = cc.shrink_case
     ctx.rule = (
         "exhaustive: every dependency graph on <=3 components, each requiring any subset of {the 3 provided names, "
         "1 available parameter, 1 missing name} (32^3 graphs), in declaration orders (all 6 in thorough, 2 per graph "
